@@ -166,6 +166,7 @@ var vWriteToCalls int
 func VC_C20_acquire() {
 	min, max := vReserve()
 	vMmapCount = 0
+	vProtLog = nil
 	const sz = 48
 	var sp [3]*Space
 	for i := 0; i < 3; i++ {
@@ -194,8 +195,17 @@ func VC_C20_acquire() {
 			continue
 		}
 		data := verifBytes(vDataNames[i], 12)
+		w0 := verifImgWrites()
 		if err := Write(sp[i], data); err != nil {
 			verifAssert(false, "C20.write.no-error")
+		}
+		if sp[i].Addr >= min && sp[i].Addr < max {
+			// wherever Acquire says the region came from: a region that lies in the reserve
+			// is program text (read+execute), so the page of every byte written must have
+			// been made writable before the copy started (a plain store would fault)
+			// (12 bytes span at most two pages: first and last byte cover both)
+			verifAssert(vProtAt(sp[i].Addr, w0)&syscall.PROT_WRITE != 0, "C20.write.reserve-page-writable-when-written")
+			verifAssert(vProtAt(sp[i].Addr+11, w0)&syscall.PROT_WRITE != 0, "C20.write.reserve-page-writable-when-written")
 		}
 		for k := 0; k < 12; k++ {
 			verifAssert(verifImgLoad(sp[i].Addr+uintptr(k)) == data[k], "C20.write.delivered")
@@ -206,7 +216,33 @@ func VC_C20_acquire() {
 
 var vDataNames = [3]string{"data0", "data1", "data2"}
 
-// mprotect(2) succeeds (linux/amd64); what it is asked to do is the subject of C14
+type vProt struct {
+	addr   uintptr
+	length int
+	prot   int
+	writes int // image stores performed before this call
+}
+
+var vProtLog []vProt
+
+// mprotect(2) succeeds (linux/amd64) and is logged; what WriteTo asks of it in general is
+// the subject of C14
 //
 //verif:stub syscall.Mprotect
-func vStubMprotect(b []byte, prot int) error { return nil }
+func vStubMprotect(b []byte, prot int) error {
+	vProtLog = append(vProtLog, vProt{addr: verifSliceAddr(b), length: len(b), prot: prot, writes: verifImgWrites()})
+	return nil
+}
+
+// vProtAt: protection of the page containing a after the logged calls made before the
+// image store number upto, starting from read+execute (text).
+func vProtAt(a uintptr, upto int) int {
+	cur := syscall.PROT_READ | syscall.PROT_EXEC
+	for i := 0; i < len(vProtLog); i++ {
+		e := vProtLog[i]
+		if e.writes <= upto && a >= e.addr && a-e.addr < uintptr(e.length) {
+			cur = e.prot
+		}
+	}
+	return cur
+}
